@@ -497,6 +497,28 @@ theorem C18_cycle_agent (cfg : Config) (ifs : List Iface) (s0 : MState) (h0 : ne
     simp only [IceModel.Gather.step, hr]
     refine ⟨trivial, ?_, ?_⟩ <;> (rw [resume_cyc]; rfl)
 
+open IceModel.Gather.Cycle in
+/-- **Back-to-back calls.** Two `GatherCandidates` tasks that run before the first cycle's goroutine gets
+its `setGatheringState(Gathering)` task through (both see state New, both are accepted): the second call
+cancels the first cycle, whose goroutine then ends without marking Gathering — exactly one cycle starts.
+From ANY state in New, with or without the re-check. (This is what the `gather2` operation of the
+harness produces on the real agent by holding the task loop; the model's `step .gather2` is these four
+transitions plus the gatherers of the one cycle that starts.) -/
+theorem C18_back_to_back (r : Bool) (s : Cycle.State) (hc : s.closed = false) (hn : s.gs = GS.new) :
+    (Cycle.run r s [.gather, .gather, .start s.cycles.length, .start (s.cycles.length + 1)]).2
+      = [Out.accepted s.cycles.length s.gen, Out.accepted (s.cycles.length + 1) s.gen,
+         Out.stateSet (s.cycles.length + 1) GS.gathering] := by
+  simp [Cycle.run, Cycle.step, hc, hn, cancelAll, List.getElem?_append, Cycle.modify]
+
+open IceModel.Gather.Cycle in
+/-- the same with a `Restart` queued between the two calls: the cycle accepted before the Restart never
+starts, the one accepted after it starts in the next generation -/
+theorem C18_gather_restart_gather (r : Bool) (s : Cycle.State) (hc : s.closed = false) (hn : s.gs = GS.new) :
+    (Cycle.run r s [.gather, .restart, .gather, .start s.cycles.length, .start (s.cycles.length + 1)]).2
+      = [Out.accepted s.cycles.length s.gen, Out.restarted (s.gen + 1), Out.accepted (s.cycles.length + 1) (s.gen + 1),
+         Out.stateSet (s.cycles.length + 1) GS.gathering] := by
+  simp [Cycle.run, Cycle.step, hc, hn, cancelAll, List.getElem?_append, Cycle.modify]
+
 /-- the model's agent runs check and hand-off back to back (as every quiescent point of the harness
 does): from a state in which the cycle is outside the window the two variants cannot be told apart -/
 theorem check_handoff_atomic (s : Cycle.State) (c : Nat) (cy : Cycle.Cyc) (hc : s.cycles[c]? = some cy)
